@@ -10,7 +10,11 @@ Oracles (C05: "final or explicitly waiting for ... a concurrency slot"; C17: "th
   * drained  =>  every workflow is final, or BUFFERED while as many workflows RUN as the limit allows (a slot is really awaited);
   * never more workflows RUNNING than the limit;
   * a workflow whose cancel flag is set is final (CANCELED unless it had finished) once the queue is drained.
-Found on the unchanged tree: F60 (StartWorkflow of a canceled workflow called a stub: NOT_STARTED for ever; purged waiting
+A third of the scenarios is the CancelRegion member: ONE generated workflow (engine_suites.gen_spec, families w0 / w1), a random
+subset of its stages tagged cancel_region='r', a CancelRegion message pushed before a random step, in-order or random delivery;
+oracle: drained => the workflow is final or a stage explicitly waits; no RUNNING stage in a finished workflow.
+The AddMultiInstance member (C01 only) is described at run_mi.
+Found on the unchanged tree: F64 (AddMultiInstance in three commits, the first one carrying the dedup mark), F63 (CancelRegion fanned out CancelStage and queued no CompleteWorkflow: RUNNING for ever), F60 (StartWorkflow of a canceled workflow called a stub: NOT_STARTED for ever; purged waiting
 workflows never became final and the slot was never offered again)."""
 from __future__ import annotations
 
@@ -26,8 +30,137 @@ from harness import core
 FINAL = {"SUCCEEDED", "TERMINAL", "CANCELED", "STOPPED", "FAILED_CONTINUE", "SKIPPED"}
 
 
+def run_region(case: dict, wd: Path) -> dict:
+    """CancelRegion member: ONE generated workflow, some stages tagged cancel_region='r', CancelRegion pushed before step `at`"""
+    import re
+
+    from harness.engine import Engine, Spec
+
+    core.ensure_repo_on_path()
+    import logging
+
+    logging.disable(logging.CRITICAL)
+    rng = random.Random(case["seed"])
+    spec = Spec.from_json(case["spec"])
+    e = Engine(spec, wd)
+    try:
+        from stabilize.queue.messages import CancelRegion
+
+        for i in case["region"]:
+            e.ro.execute("UPDATE stage_executions SET cancel_region='r' WHERE id=?", (e.stage_ids[i],))
+        e.start()
+        ops: list[str] = []
+        sent = False
+        at = case["at"]
+        for step in range(800):
+            if not sent and step >= at:
+                e.queue.push(CancelRegion(execution_type=e._wf_obj.type.value, execution_id=e.wf_id, region="r"))
+                ops.append("CancelRegion(r)")
+                sent = True
+            p = e.pending()
+            dl = e.delayed_ids()
+            now = [x for x in p if x[0] not in dl]
+            p = now or [x for x in p if x[1].startswith("RT.")] or p
+            if not p:
+                if not sent:
+                    at = step
+                    continue
+                break
+            x = p[0] if case["mode"] == "fifo" else rng.choice(p)
+            r = e.deliver(x[0])
+            ops.append(f"d{x[0]}[{x[1]}]" + ("" if r == "ok" else ":" + r))
+        parts = e.state_line().split(";")
+        w = parts[0][2:].split(",")[0]
+        st = [q.split("=")[1].split(",")[0] for q in parts if re.match(r"S\d+=", q)]
+        sigs = []
+        if e.pending():
+            sigs.append(("no-drain", "the queue did not drain within the step budget"))
+        if w not in FINAL and not any(x in ("SUSPENDED", "PAUSED") for x in st):
+            sigs.append((f"region:stuck:W-{w}:stages-{'+'.join(sorted(set(st)))}",
+                         f"after CancelRegion the queue is drained, the workflow is {w} and nothing waits for a signal; stages {st}"))
+        if w in FINAL and any(x == "RUNNING" for x in st):
+            sigs.append(("region:finished-with-running-stage", f"workflow {w} with a RUNNING stage: {st}"))
+        if w == "SUCCEEDED" and any(x not in ("SUCCEEDED", "SKIPPED", "FAILED_CONTINUE") for x in st[:len(spec.stages)]):
+            sigs.append(("region:succeeded-with-unfinished-or-failed-stage", f"workflow SUCCEEDED with stages {st}"))
+        return {"final": [w] + st, "ops": ops, "sigs": sorted(set(sigs)), "nmsg": sum(1 for o in ops if o[0] == "d")}
+    finally:
+        e.close()
+
+
+MI_CONFIG = {"allow_dynamic": True, "count": 0, "count_from_context": "", "sync_on_complete": True,
+             "collection_from_context": "", "join_threshold": 0, "cancel_remaining": False}
+
+
+def run_mi(case: dict, wd: Path) -> dict:
+    """AddMultiInstance member (C01): a stage with a dynamic multi-instance config polls; after `at` in-order deliveries an
+    AddMultiInstance message is pushed and delivered - uninterrupted (reference) or with the worker killed after its k-th
+    commit, followed by restart + lock expiry + recovery sweep; then the in-order drain.  Oracle: the same stages with the same
+    final statuses as the uninterrupted run (crash anywhere + recovery = uninterrupted outcome)."""
+    from harness.engine import Engine, Spec
+
+    core.ensure_repo_on_path()
+    import logging
+
+    logging.disable(logging.CRITICAL)
+    spec = Spec.from_json(case["spec"])
+
+    def one(kill_k):
+        e = Engine(spec, wd, name=f"mi{kill_k}")
+        try:
+            from stabilize.queue.messages import AddMultiInstance
+
+            e.ro.execute("UPDATE stage_executions SET mi_config=? WHERE id=?", (json.dumps(MI_CONFIG), e.stage_ids[0]))
+            e.start()
+            ops: list[str] = []
+
+            def dl(n: int) -> None:
+                for _ in range(n):
+                    p = e.pending()
+                    if not p:
+                        return
+                    r = e.deliver(p[0][0])
+                    ops.append(f"d{p[0][0]}[{p[0][1]}]" + ("" if r == "ok" else ":" + r))
+
+            dl(case["at"])
+            e.queue.push(AddMultiInstance(execution_type=e._wf_obj.type.value, execution_id=e.wf_id, stage_id=e.stage_ids[0],
+                                          instance_context={"x": 1}))
+            rid = [i for i, c, _ in e.pending() if c.startswith("AddMultiInstance")][0]
+            if kill_k is None:
+                r = e.deliver(rid)
+                ops.append(f"d{rid}[AddMultiInstance]" + ("" if r == "ok" else ":" + r))
+            else:
+                r, _n = e.crash(rid, kill_k)
+                ops.append(f"k{rid}.{kill_k}[AddMultiInstance]:{r}")
+                if r == "killed":
+                    e.restart()
+                    e.expire_locks()
+                    e.sweep()
+                    ops.append("restart+expire+sweep")
+            dl(300)
+            rows = e.ro.execute("SELECT ref_id, status FROM stage_executions ORDER BY ref_id").fetchall()
+            w = e.ro.execute("SELECT status FROM pipeline_executions").fetchone()[0]
+            return [w] + [f"{r[0]}={r[1]}" for r in rows], ops, bool(e.pending())
+        finally:
+            e.close()
+
+    ref, _ops, _nd = one(None)
+    got, ops, nodrain = one(case["kill"])
+    sigs = []
+    if nodrain:
+        sigs.append(("no-drain", "the queue did not drain within the step budget"))
+    if got != ref:
+        lost = sorted(set(ref) - set(got))
+        sigs.append((f"mi:outcome-differs-after-kill:k{case['kill']}:{'instance-lost' if any('_instance_' in x for x in lost) else 'other'}",
+                     f"AddMultiInstance killed after commit {case['kill']} + restart + sweep ends {got}, the uninterrupted run {ref}"))
+    return {"final": got, "ops": ops, "sigs": sorted(set(sigs)), "nmsg": sum(1 for o in ops if o[0] == "d")}
+
+
 def run_case(case: dict, wd: Path) -> dict:
     """one scenario, fully determined by `case` (all random choices come from random.Random(case['seed']))"""
+    if case.get("kind") == "region":
+        return run_region(case, wd)
+    if case.get("kind") == "mi":
+        return run_mi(case, wd)
     from harness.engine import Engine, Spec, StageSpec
 
     core.ensure_repo_on_path()
@@ -131,7 +264,22 @@ def run_case(case: dict, wd: Path) -> dict:
         e.close()
 
 
-def gen_case(rng: random.Random, tag: str) -> dict:
+def gen_case(rng: random.Random, tag: str, kinds: tuple = ("conc", "region")) -> dict:
+    if "mi" in kinds and (kinds == ("mi",) or rng.random() < 0.2):
+        from harness.engine import Spec, StageSpec
+
+        first = rng.choice([["R", "R", "S"], ["R", "S"], ["R", "R", "R", "S"], ["R", "T"], ["R", "F"]])
+        stages = [StageSpec(tasks=[first])]
+        if rng.random() < 0.7:
+            stages.append(StageSpec(reqs=[0], tasks=[["S"]]))
+        return {"kind": "mi", "seed": tag, "spec": Spec(stages).to_json(), "at": rng.choice([3, 4, 4, 5]), "kill": rng.choice([1, 1, 2, 3, 4])}
+    if "region" in kinds and ("conc" not in kinds or rng.random() < 0.35):
+        from harness import engine_suites as es
+
+        spec = es.gen_spec(rng, rng.choice(["w1", "w1", "w0"]))
+        n = len(spec.stages)
+        return {"kind": "region", "seed": tag, "spec": spec.to_json(), "region": [i for i in range(n) if rng.random() < 0.5] or [rng.randrange(n)],
+                "at": rng.randint(0, 6 + 4 * n), "mode": rng.choice(["fifo", "rand"])}
     limited = rng.random() < 0.8
     nwf = rng.choice([2, 3, 3, 4]) if limited else rng.choice([1, 2])
     return {"seed": tag, "script": rng.choice([["S"], ["S"], ["T"], ["F"], ["R", "S"]]), "nwf": nwf, "limited": limited,
@@ -141,12 +289,12 @@ def gen_case(rng: random.Random, tag: str) -> dict:
 
 
 def _worker(job) -> list[dict]:
-    seed, lo, hi = job
+    seed, lo, hi, kinds = job
     wd = core.scratch_dir()
     out = []
     try:
         for j in range(lo, hi):
-            case = gen_case(random.Random(f"conc:{seed}:{j}"), f"conc:{seed}:{j}")
+            case = gen_case(random.Random(f"conc:{seed}:{j}"), f"conc:{seed}:{j}", kinds)
             try:
                 out.append({"case": case, **run_case(case, wd)})
             except Exception:
@@ -158,12 +306,12 @@ def _worker(job) -> list[dict]:
     return out
 
 
-def run_for(ctx, prop: str) -> None:
+def run_for(ctx, prop: str, kinds: tuple = ("conc", "region")) -> None:
     t0 = time.time()
-    total = ctx.n(480, 4800)
+    total = ctx.n(480, 4800) if kinds != ("mi",) else ctx.n(96, 480)
     nproc = 16
     per = max(1, total // nproc)
-    jobs = [(ctx.seed, i * per, (i + 1) * per) for i in range(nproc)]
+    jobs = [(ctx.seed, i * per, (i + 1) * per, tuple(kinds)) for i in range(nproc)]
     res: list[dict] = []
     with ProcessPoolExecutor(max_workers=nproc) as ex:
         for part in ex.map(_worker, jobs):
@@ -175,10 +323,19 @@ def run_for(ctx, prop: str) -> None:
     for r in res:
         c = r["case"]
         ctx.count(["conc", c], nontrivial=True)
-        ctx.tag("model-free:concurrency-limit", f"conc:mode:{c['mode']}", f"conc:limited:{int(c['limited'])}:keep:{int(c['keep'])}",
-                f"conc:flag-cancels:{len(c['flag_cancels'])}", f"conc:msg-cancels:{c['msg_cancels']}")
-        for f in r["final"]:
-            ctx.tag("conc:final:" + f)
+        if c.get("kind") == "mi":
+            ctx.tag("model-free:add-multi-instance", f"conc:mi:kill-after-commit:{c['kill']}", f"conc:mi:pushed-after:{c['at']}",
+                    "conc:mi:instance-present" if any("_instance_" in x for x in r["final"]) else "conc:mi:no-instance(parent-complete-or-refused)")
+            fam["mi_scenarios"] = fam.get("mi_scenarios", 0) + 1
+        elif c.get("kind") == "region":
+            ctx.tag("model-free:cancel-region", f"conc:region:mode:{c['mode']}", "conc:region:wf:" + r["final"][0],
+                    f"conc:region:stages-in-region:{min(len(c['region']), 3)}")
+            fam["region_scenarios"] = fam.get("region_scenarios", 0) + 1
+        else:
+            ctx.tag("model-free:concurrency-limit", f"conc:mode:{c['mode']}", f"conc:limited:{int(c['limited'])}:keep:{int(c['keep'])}",
+                    f"conc:flag-cancels:{len(c['flag_cancels'])}", f"conc:msg-cancels:{c['msg_cancels']}")
+            for f in r["final"]:
+                ctx.tag("conc:final:" + f)
         fam["scenarios"] += 1
         fam["messages"] += r["nmsg"]
         for sig, what in r["sigs"]:
